@@ -349,7 +349,10 @@ func runC03(c *ShardCtx) {
 		if c.Thorough() {
 			k = 4
 		}
-		for _, cs := range classSpellings(k) {
+		// hyphen structure: every class text over {a, c, e, -, _} up to 6 (thorough 7) runes - runs of
+		// ranges, hyphens after a range, at the start, at the end, doubled
+		hy := classSpellingsOver([]string{"a", "c", "e", "-", "_"}, 6+map[bool]int{false: 0, true: 1}[c.Thorough()])
+		for _, cs := range append(classSpellings(k), hy...) {
 			if c.Expired("class spelling family") {
 				return
 			}
@@ -497,6 +500,39 @@ type classSpelling struct {
 	items    []peg.ClassItem
 	inverted bool
 	ok       bool // false: the text contains a descending range (outside the documented syntax)
+}
+
+// classSpellingsOver enumerates the class texts over plain one-rune pieces.
+func classSpellingsOver(runes []string, k int) []classSpelling {
+	var out []classSpelling
+	var rec func(n int, s []rune)
+	rec = func(n int, s []rune) {
+		if n >= 3 { // shorter texts are part of classSpellings
+			cs := classSpelling{src: "[" + string(s) + "]", ok: true}
+			for i := 0; i < len(s); {
+				switch {
+				case i+2 < len(s) && s[i+1] == '-':
+					if s[i+2] <= s[i] {
+						cs.ok = false
+					}
+					cs.items = append(cs.items, peg.ClassItem{Lo: s[i], Hi: s[i+2]})
+					i += 3
+				default:
+					cs.items = append(cs.items, peg.ClassItem{Lo: s[i], Hi: s[i]})
+					i++
+				}
+			}
+			out = append(out, cs)
+		}
+		if n == k {
+			return
+		}
+		for _, r := range runes {
+			rec(n+1, append(append([]rune{}, s...), []rune(r)...))
+		}
+	}
+	rec(0, nil)
+	return out
 }
 
 // classSpellings enumerates class texts "[...]" of at most k pieces together
